@@ -30,7 +30,7 @@ prop("C04", "Unbounded proof of the receiver's ordering gate: a file is finalize
       S+"fromWait": None, S+"detectWaitLoop": None, S+"cleanWaiting": None})
 prop("C05", "Unbounded proof of the duplicate-handling guards: a complete duplicate of a known (not failed) version with the same hash is discarded and never renamed, cached or queued again; exactly one receive-log record per put-away; a part of a known version is answered 'already received' without touching the stage; ageing of the in-memory delivery record drops only delivered, aged entries, and the watermark from which the record counts as complete is only ever lowered to the logged time of an entry that stays",
      "completeness of the in-memory record above the watermark as a data-structure invariant (only the per-pass discipline of cleanCache is proved), log refill window, interleavings (A1)",
-     {S+"Receive": ["complete-duplicate-ignored", "duplicate-body-removed", "companion-removed-only-when-finalized", "removes-only-own-files", "caches-received-or-failed"],
+     {S+"Receive": ["complete-duplicate-ignored", "duplicate-check-under-lock", "duplicate-body-removed", "companion-removed-only-when-finalized", "removes-only-own-files", "caches-received-or-failed"],
       S+"process": ["ignore-unless-received", "caches-this-file"],
       S+"finalize": ["only-validated"],
       S+"putFileAway": ["one-record-per-call", "finalized-after-move"],
@@ -132,7 +132,7 @@ P["C06"]["functions"] += ["fileutil.writeJSON", "fileutil.Move", "(*log.rollingF
 P["C06"]["labels"]["(*log.rollingFile).log"] = ["sync-when-required", "rotated-first"]
 P["C07"]["functions"] += ["fileutil.writeJSON"]
 P["C01"]["functions"] += ["fileutil.Move"]
-P["C08"]["functions"] += [H+"routeData", H+"routeDataRecovery"]
+P["C08"]["functions"] += [H+"routeData", H+"routeDataRecovery", "(*http.Client).Transmit"]
 P["C08"]["labels"][H+"routeData"] = ["partial-answer-after-a-failed-part", "partcount-is-receive-count", "complete-only-at-the-end"]
 P["C09"]["functions"] += ["(*payload.PartDecoder).Read"]
 
